@@ -327,6 +327,16 @@ func (mc *Chain) handleVerificationTicketMessage(ctx context.Context,
 		return
 	}
 
+	// the ticket was verified against the miners of the round it names: it only counts
+	// for a block of that round
+	if b.Round != bvt.Round {
+		logging.Logger.Error("handle vt. msg - ticket round does not match the block's round",
+			zap.Int64("ticket round", bvt.Round),
+			zap.Int64("block round", b.Round),
+			zap.String("block", bvt.BlockID))
+		return
+	}
+
 	mc.ProcessVerifiedTicket(ctx, mr, b, &bvt.VerificationTicket)
 }
 
@@ -424,6 +434,11 @@ func (mc *Chain) notarizationProcess(ctx context.Context, not *Notarization) err
 			}
 		}
 		b.SetPreviousBlock(prevBlock)
+	}
+
+	// the tickets are verified against the miners of the notarization's round
+	if b.Round != not.Round {
+		return fmt.Errorf("notarization round %d does not match the block's round %d", not.Round, b.Round)
 	}
 
 	if !b.IsStateComputed() {
